@@ -1,2 +1,6 @@
 import CijModel.Json
 import CijModel.Voigt
+import CijModel.QExpr
+import CijModel.Wire
+import CijModel.Ops.C10
+import CijModel.Ops.C12
